@@ -35,8 +35,6 @@ ASSUMPTIONS = [
     "for 2-D CF grids without stored bounds the statements define no construction: only validity "
     "(valid polygon, no two cells overlap, no polygon for a missing centre) "
     "is asserted",
-    "bounds / geometry equality is asserted when every stored corner belongs to a valid cell "
-    "(no self-intersecting cells, no mesh nodes outside every face)",
     "mesh nodes all have coordinates (meshes get their holes from self-intersecting faces)",
 ]
 
@@ -122,8 +120,7 @@ def check_spec(spec, ctx):
     # ---- bounds and overall geometry
     reference = [Polygon(c) for c in cells if c is not None] if defined else \
         [p for p in polygons if p is not None]
-    clean = defined and not invalid and not _has_stray_nodes(spec)
-    if reference and (clean or not defined):
+    if reference:
         xs = [x for p in reference for x, y in p.exterior.coords]
         ys = [y for p in reference for x, y in p.exterior.coords]
         want_bounds = (min(xs), min(ys), max(xs), max(ys))
